@@ -4,6 +4,8 @@ mod archs;
 mod bv;
 mod explore;
 mod gen;
+mod isa_mips;
+mod isa_ppc;
 mod native;
 mod lifter;
 mod x86gen;
